@@ -100,6 +100,10 @@ pub struct Script {
     pub pipe_capacity: usize,
     pub fault: WireFault,
     pub limit_disabled: bool,
+    /// mode B: a second extraction (other bytes, same framing) is in flight on the same thread and
+    /// the tape interleaves the polls of the two
+    #[serde(default)]
+    pub dual: bool,
 }
 
 pub fn make_body(script: &Script) -> Vec<u8> {
@@ -399,12 +403,56 @@ fn run_frames(script: &Script, tape: &mut Tape, keep: bool) -> RunOut {
     let flag = std::sync::Arc::new(FlagWaker(std::sync::atomic::AtomicBool::new(true)));
     let waker = std::task::Waker::from(flag.clone());
     let mut cx = Context::from_waker(&waker);
+    // the companion extraction (same thread, other bytes)
+    let data_b: Vec<u8> = if script.dual { Rng::new(script.body_seed ^ 0xB0D1).bytes(data.len()) } else { Vec::new() };
+    let stats_b = std::rc::Rc::new(std::cell::RefCell::new(BodyStats::default()));
+    let head_b = head_for(script, data.len());
+    let mut fut_b = if script.dual {
+        let body_b = ScriptedBody {
+            data: Bytes::from(data_b.clone()),
+            pos: 0,
+            ops: script.frames.iter().cloned().collect(),
+            hint: script.hint.clone(),
+            pending_waker: None,
+            delivered: 0,
+            errored: false,
+            ended: false,
+            polls: 0,
+            stats: stats_b.clone(),
+        };
+        Some(Box::pin(BufferedBody::verif_extract_with_limit(&head_b, body_b, ByteUnit::Byte(script.limit))))
+    } else {
+        None
+    };
+    let flag_b = std::sync::Arc::new(FlagWaker(std::sync::atomic::AtomicBool::new(true)));
+    let waker_b = std::task::Waker::from(flag_b.clone());
+    let mut cx_b = Context::from_waker(&waker_b);
+    let mut result_b: Option<Result<BufferedBody, ExtractBufferedBodyError>> = None;
     let mut polls = 0u64;
     let mut panicked: Option<String> = None;
     let result = loop {
         polls += 1;
-        if polls > 10 * script.frames.len() as u64 + 100 {
+        if polls > 20 * script.frames.len() as u64 + 200 {
             break None;
+        }
+        // interleave: the tape decides whose turn it is while both are in flight
+        if let Some(fb) = fut_b.as_mut() {
+            if result_b.is_none() && tape.chance(1, 2) {
+                if flag_b.0.swap(false, std::sync::atomic::Ordering::SeqCst) || tape.chance(1, 4) {
+                    crate::quiet_panics();
+                    match std::panic::catch_unwind(std::panic::AssertUnwindSafe(|| fb.as_mut().poll(&mut cx_b))) {
+                        Ok(Poll::Ready(r)) => result_b = Some(r),
+                        Ok(Poll::Pending) => {
+                            out.log.sched(format_args!("pending(b)"));
+                        }
+                        Err(_) => {
+                            panicked = Some(crate::take_panics().join(" | "));
+                            break None;
+                        }
+                    }
+                }
+                continue;
+            }
         }
         // spurious extra polls are legal for any future: the tape decides
         if !flag.0.swap(false, std::sync::atomic::Ordering::SeqCst) && !tape.chance(1, 4) {
@@ -423,6 +471,37 @@ fn run_frames(script: &Script, tape: &mut Tape, keep: bool) -> RunOut {
             }
         }
     };
+    // let the companion finish (a bounded number of polls)
+    if let Some(fb) = fut_b.as_mut() {
+        let mut extra = 0;
+        while result_b.is_none() && panicked.is_none() && extra < 10 * script.frames.len() + 50 {
+            extra += 1;
+            if !flag_b.0.swap(false, std::sync::atomic::Ordering::SeqCst) && extra > 3 {
+                break;
+            }
+            match std::panic::catch_unwind(std::panic::AssertUnwindSafe(|| fb.as_mut().poll(&mut cx_b))) {
+                Ok(Poll::Ready(r)) => result_b = Some(r),
+                Ok(Poll::Pending) => {}
+                Err(_) => {
+                    panicked = Some(crate::take_panics().join(" | "));
+                }
+            }
+        }
+    }
+    drop(fut_b);
+    if script.dual {
+        out.count("concurrent_extractions_on_one_thread", 1);
+        if let Some(Ok(b)) = &result_b {
+            let n = limit_usize(script.limit);
+            let delivered_b = stats_b.borrow().delivered;
+            let want = &data_b[..delivered_b.min(data_b.len())];
+            if b.bytes.len() > n {
+                out.violations.push(viol("never-more-than-limit", "frames concurrent extraction".into(), format!("a concurrent extraction returned {} bytes with a limit of {n}", b.bytes.len())));
+            } else if b.bytes.as_ref() != want {
+                out.violations.push(viol("byte-identical", "frames concurrent extraction".into(), format!("two extractions were in flight on one thread: one of them returned {} bytes that are not the {} bytes its own transport delivered", b.bytes.len(), want.len())));
+            }
+        }
+    }
     drop(fut);
     if let Some(msg) = &panicked {
         out.violations.push(viol("no-panic", "extractor panicked (frames)".into(), format!("the extractor panicked instead of returning a body or an error: {}", msg.chars().take(200).collect::<String>())));
@@ -1083,6 +1162,7 @@ impl Sim for BodySim {
             pipe_capacity,
             fault,
             limit_disabled: false,
+            dual: !wire && rng.chance(1, 4),
         }
     }
 
@@ -1142,6 +1222,11 @@ impl Sim for BodySim {
         if s.payload != Payload::Random {
             let mut t = s.clone();
             t.payload = Payload::Random;
+            c.push(t);
+        }
+        if s.dual {
+            let mut t = s.clone();
+            t.dual = false;
             c.push(t);
         }
         if s.hint != Hint::Default {
